@@ -290,8 +290,10 @@ func (c *compiler) compileType(y *Type, parent Leafable, isUnion bool) error {
 		resolvedMeta := Find(parent, y.path)
 		if resolvedMeta == nil {
 			return fmt.Errorf("%s - %s path cannot be resolved", SchemaPath(parent), y.ident)
+		} else if target, hasType := resolvedMeta.(HasType); !hasType {
+			return fmt.Errorf("%s - %s path does not lead to a leaf", SchemaPath(parent), y.ident)
 		} else {
-			y.delegate = resolvedMeta.(HasType).Type()
+			y.delegate = target.Type()
 		}
 	} else {
 		y.delegate = y
